@@ -41,6 +41,17 @@ SHARED = {
     "v_dbg": dict(lit="{_variant:?}", args="", mention=True, reject=True),
     "v_width": dict(lit="{_variant:>4}", args="", mention=True, reject=True),
     "v_hex_arg": dict(lit="{0:x}", args="_variant", mention=True, reject=True),
+    # every kind of specifier ALONE (a combination can mask a forgotten one)
+    "v_align": dict(lit="{_variant:<}", args="", mention=True, reject=True),
+    "v_fill": dict(lit="{_variant:*^}", args="", mention=True, reject=True),
+    "v_sign": dict(lit="{_variant:+}", args="", mention=True, reject=True),
+    "v_minus": dict(lit="{_variant:-}", args="", mention=True, reject=True),
+    "v_alt": dict(lit="{_variant:#}", args="", mention=True, reject=True),
+    "v_zero": dict(lit="{_variant:0}", args="", mention=True, reject=True),
+    "v_width_only": dict(lit="{_variant:4}", args="", mention=True, reject=True),
+    "v_prec": dict(lit="{_variant:.2}", args="", mention=True, reject=True),
+    "v_width_arg": dict(lit="{_variant:1$}", args="_variant, 4usize", mention=True, reject=True),
+    "pos_alias": dict(lit="[{0}]", args="v = _variant", mention=True),
     "escaped": dict(lit="{{_variant}}", args="", mention=False),
     "v_ws": dict(lit="<{_variant }>", args="", mention=True),
 }
@@ -54,6 +65,9 @@ def words_case(name, c):
 
 def lit_rs(s):
     return '"' + s.replace("\\", "\\\\").replace('"', '\\"') + '"'
+
+
+SINGLE_SPEC = ("v_align", "v_fill", "v_sign", "v_minus", "v_alt", "v_zero", "v_width_only", "v_prec", "v_width_arg")
 
 
 class Reject(Exception):
@@ -197,6 +211,8 @@ def run(chk, tier):
             for sk in SHARED:
                 if derive == "Debug" and sk not in ("none", "v", "text", "f0"):
                     continue
+                if sk in SINGLE_SPEC and (len(kinds) > 1 or derive != "Display"):
+                    continue   # rejected whatever the variants are: one variant kind at a time is enough
                 if derive == "LowerHex" and not thorough and sk in ("v_v", "alias", "f0_dbg", "v_width", "escaped"):
                     continue
                 for rn in ((None, "snake_case") if derive == "Display" and any(not KINDS[k]["fields"] for k in kinds) else (None,)):
@@ -216,7 +232,8 @@ def run(chk, tier):
     nrej = sum(1 for c in cases if c.expect == "fail")
     chk.part("space", programs=len(cases), expected_rejections=nrej, variant_kinds=kinds_alpha, shared_literals=list(SHARED), max_variants=maxv,
              traits=["Display", "LowerHex", "Debug"] + OTHER_TRAITS, attribute_orders="`rename_all` before and after the enum-level format attribute", note="full product for <=2 variants (+ 3-variant products over 6 kinds in thorough); every value of every variant (3 values per field)")
-    eng = CompileEngine("C07", prelude=PRELUDE, per_bin=max(8, len(cases) // 24 + 1))
+    # rustc's own warn-by-default lint about `"{0}", v = x` (a named argument used by position only) is about the user's literal, not the derive
+    eng = CompileEngine("C07", prelude=PRELUDE, per_bin=max(8, len(cases) // 24 + 1), crate_attrs="#![allow(named_arguments_used_positionally)]\n")
     results = eng.run_cases(cases)
     import re
     for c in cases:
